@@ -3,7 +3,7 @@
    Schema/StoreModel.v, the vocabulary Spec/StoreSpec.v. *)
 From PyGql Require Import Spec.StoreSpec Proofs.StoreProofs Proofs.StoreHeal Proofs.StoreLoop
      Proofs.StoreFrame Proofs.StoreClone Proofs.StoreOps Proofs.StoreTerm Proofs.StoreObserve
-     Spec.StoreExtSpec Proofs.StoreExtendP Proofs.StoreExtPres Proofs.StoreVis Proofs.StoreVisM Proofs.StoreCloneP.
+     Spec.StoreExtSpec Proofs.StoreExtendP Proofs.StoreExtPres Proofs.StoreVis Proofs.StoreVisM Proofs.StoreCloneP Proofs.StoreDesc Proofs.StoreXform.
 Local Open Scope N_scope.
 
 (* Schema(query, mutation, subscription, directives, types): whenever the
@@ -201,27 +201,57 @@ Print Assumptions C14_preserved_partial.
 Theorem C14_clone_preserved : forall fuel m s m' s',
   fresh_ok m -> builtins_ok m -> closed m s -> wf_schema m s -> wf_builtins s ->
   clone fuel m s = Ok (m', s') ->
+  (fresh_ok m' /\ wf_reg m' (s_types s') /\
+   forall n o, In (n, o) (s_types s') -> is_builtin o = false -> exists t, In (n, t) (s_types s) /\ is_builtin t = false) /\
   forall n t, In (n, t) (s_types s) -> is_builtin t = false ->
     exists t', alookup n (s_types s') = Some t' /\ type_cloned m' n t t'.
 Proof. exact clone_preserved. Qed.
 Print Assumptions C14_clone_preserved.
 
-(* full statements (not proved): the same element-wise correspondence for the
-   visibility transform (restricted to the accepted elements) and for
-   camel-casing (names mapped through the renaming), and for the directives
-   of a clone *)
-Definition C14_preserved_vis_camel_full : Prop :=
-  forall fuel m s,
+(* transform_schema(schema, VisibilitySchemaTransform), for every predicate
+   record: every non-specified type registered in the result descends from the
+   source's type of that name ([redesc]/[tdesc] of Proofs/StoreDesc.v): same
+   name, kind, description, default / type resolver, directives, and its member
+   list is obtained from the source's by dropping members and replacing each
+   of the others by an element with the same name, python name, description,
+   deprecation reason, default, resolver, subscription resolver and directives
+   -- in the same relative order; likewise, member by member, for the
+   arguments of fields. Nothing is invented, altered or reordered. *)
+Theorem C14_vis_preserved : forall fuel p m s m' s',
+  fresh_ok m -> builtins_ok m -> closed m s -> wf_schema m s -> wf_builtins s ->
+  transform fuel (vis_visitor p) m s = Ok (m', s') ->
+  redesc (mget m) (fun n => n) (s_types s) m' (s_types s').
+Proof. exact transform_vis_desc. Qed.
+Print Assumptions C14_vis_preserved.
+
+(* transform_schema(schema, CamelCaseSchemaTransform), for every renaming
+   function [c]: the same, with every field, argument and input field carrying
+   the name [c old_name] and python_name = the old python_name, every other
+   attribute equal, enum values unchanged ([src_sorted]: in the source, input
+   objects hold input fields, enums enum values). Two members whose names
+   collide after renaming both reappear (under the same name): the result is
+   then refused by transform_schema's final validate() ('Duplicate field'),
+   checked against the implementation. *)
+Theorem C14_camel_preserved : forall fuel c m s m' s',
+  fresh_ok m -> builtins_ok m -> closed m s -> wf_schema m s -> wf_builtins s ->
+  (forall n t, In (n, t) (s_types s) -> is_builtin t = false -> src_sorted (mget m) t) ->
+  transform fuel (camel_visitor c) m s = Ok (m', s') ->
+  redesc (mget m) c (s_types s) m' (s_types s').
+Proof. exact transform_camel_desc. Qed.
+Print Assumptions C14_camel_preserved.
+
+(* full statements (not proved): completeness -- after camel-casing no member
+   and no argument is missing (the descent above is one-for-one), after the
+   visibility transform exactly the members rejected by a predicate or whose
+   type was removed are missing *)
+Definition C14_camel_complete_full : Prop :=
+  forall fuel c m s m' s',
     fresh_ok m -> builtins_ok m -> closed m s -> wf_schema m s -> wf_builtins s ->
-    (forall p m' s', transform fuel (vis_visitor p) m s = Ok (m', s') ->
-       forall n t', alookup n (s_types s') = Some t' -> is_builtin t' = false ->
-         exists t, In (n, t) (s_types s) /\
-           exists k d ms ifs r ds ms' ifs',
-             mget m' t = Some (OType n k d ms ifs r ds) /\ mget m' t' = Some (OType n k d ms' ifs' r ds) /\
-             exists kept, Forall2 (mcopy m') kept ms' /\ incl kept ms) /\
-    (forall c m' s', transform fuel (camel_visitor c) m s = Ok (m', s') ->
-       forall n t, In (n, t) (s_types s) -> is_builtin t = false ->
-         exists t', alookup n (s_types s') = Some t').
+    transform fuel (camel_visitor c) m s = Ok (m', s') ->
+    forall n t, In (n, t) (s_types s) -> is_builtin t = false ->
+      exists t', alookup n (s_types s') = Some t' /\
+        length (match mget m' t' with Some (OType _ _ _ ms _ _ _) => ms | _ => [] end) =
+        length (match mget m t with Some (OType _ _ _ ms _ _ _) => ms | _ => [] end).
 
 (* full statement (not proved): the result of an operation does not depend on
    the operations applied to the same source before *)
